@@ -329,9 +329,10 @@ def D6(m, R):
                 {norm(n.test.left), norm(n.test.comparators[0])} == {'len(%s)' % s, 'len(%s)' % txt}:
             swapped = norm(n.test.left) != 'len(%s)' % s
             regs = cmp_regions(n.test.ops[0], swapped)
-            if regs == {'>'}:
+            # equal lengths may go either way: moving the end point onto itself / clipping to the full length change nothing
+            if regs in ({'>'}, {'>', '='}):
                 grow = n
-            elif regs == {'<'}:
+            elif regs in ({'<'}, {'<', '='}):
                 shrink = n
     problems = []
     if grow is None:
@@ -374,7 +375,8 @@ def D6(m, R):
     elif filt[ro.START] != '@.valid':
         problems.append('filter is %s, documented: drop settings that are not valid' % filt[ro.START])
     last = f.body[-1]
-    if not (isinstance(last, ast.Expr) and norm(last.value) == '%s.set_ansi_str(str(%s))' % (selfn, selfn)):
+    if not (isinstance(last, ast.Expr) and norm(last.value) in ('%s.set_ansi_str(str(%s))' % (selfn, selfn), '%s.set_ansi_str(%s)' % (selfn, selfn),
+                                                                  '%s.set_ansi_str(%s.to_str())' % (selfn, selfn))):
         problems.append('does not finish by re-parsing its own default rendering (%s)' % short(last))
     R.check(not problems, f, f.node, 'simplify filters START and STOP by .valid, then re-parses str(self)', '; '.join(problems), construct=cons)
     # partition / rpartition
@@ -501,6 +503,10 @@ def D6(m, R):
                     t_ = fills[0].args[0].elts
                     if flp is None or norm(t_[1]) != 'len(%s)' % norm(flp.target):
                         problems.append('recorded length is %s, not the length of the str piece' % norm(t_[1]))
+        for c in [n for n in f.walk() if isinstance(n, ast.Call) and call_name(n) in ('find', 'rfind', 'index', 'rindex') and isinstance(n.func, ast.Attribute)
+                  and norm(n.func.value) == '%s.%s' % (selfn, TEXT)]:
+            if c.func.attr != 'find' or len(c.args) != 2:
+                problems.append('a piece is relocated with %s; the pieces come in text order, so the search must be find(piece, cursor)' % short(c))
         R.check(not problems, f, f.node, '%s: pieces are self[offset:offset+len(piece)] for the str pieces in order' % name, '; '.join(problems), construct=cons)
     for name, r in (('split', 'False'), ('rsplit', 'True')):
         f = fn(name)
@@ -674,23 +680,19 @@ def D7(m, R):
             continue
         # num = width - len(TEXT): evaluate the guard on the three sign regions of (width - old_len)
         t = subst(act.test, env)
-        lhs = None
-        if isinstance(t, ast.Compare) and len(t.ops) == 1:
-            l, r = norm(t.left), norm(t.comparators[0])
-            if l == '%s - len(%s)' % (width, txt) and r == '0':
-                lhs = cmp_regions(t.ops[0])
-            elif r == '%s - len(%s)' % (width, txt) and l == '0':
-                lhs = cmp_regions(t.ops[0], swapped=True)
-            elif l == width and r == 'len(%s)' % txt:
-                lhs = cmp_regions(t.ops[0])
-            elif r == width and l == 'len(%s)' % txt:
-                lhs = cmp_regions(t.ops[0], swapped=True)
-        if lhs is None:
-            R.undecided(f, act, 'guard %s is not a comparison of width - len(text) with 0' % short(t), construct=cons)
+        from ..finite import int_eval
+        acts = {}
+        try:
+            for numv in range(-3, 4):
+                acts[numv] = bool(int_eval(t, {'%s - len(%s)' % (width, txt): numv, width: numv, 'len(%s)' % txt: 0}))
+        except Undecided as e:
+            R.undecided(f, act, 'guard %s: %s' % (short(t), e), construct=cons)
             continue
-        if '>' not in lhs:
-            problems.append('does not pad when width exceeds the length (guard %s)' % short(act.test))
-        if '<' in lhs:
+        miss = [k for k in acts if k >= 1 and not acts[k]]
+        neg = [k for k in acts if k <= -1 and acts[k]]
+        if miss:
+            problems.append('does not pad when width exceeds the length by %s (guard %s)' % (miss, short(act.test)))
+        if neg:
             problems.append('pads / shifts when width is below the length (guard %s): a negative count reaches the shift' % short(act.test))
         # text assembly
         env2 = dict(env)
